@@ -11,7 +11,7 @@ from mc.models import ini
 
 ID = "C17"
 LEVEL = "model_checking"
-REQUIRED_OUTCOMES = ["general:ok", "main:explicit", "main:default-of-several", "src-fallback", "float-timestamp",
+REQUIRED_OUTCOMES = ["general:ok", "edit-after-write:ok", "main:explicit", "main:default-of-several", "src-fallback", "float-timestamp",
                      "no-packages-path", "legacy-reader:agrees", "dashed-main-variant"]
 HACK_NAMES = ("Red Hat Enterprise Linux", "Subscription Asset Manager", "Red Hat Storage", "JBEAP", "Fedora", "CentOS", "EulerOS")
 
@@ -68,7 +68,16 @@ def eval_case(case):
         if case.get("moved"):
             other = B.seed_src() if spec["tree"]["arch"] != "src" else B.seed_flat()
             owner = B.build(other)               # the variant objects are made for a tree of the other kind, then added here
-        obj = B.build(spec, _owner=owner)
+        if case.get("live") and case["edits"]:
+            # the parent state is built and WRITTEN (with every main-variant choice), then the last edit is made on the
+            # same live object: [general] of the next file must follow the edit
+            parent = spec_of(dict(case, edits=case["edits"][:-1]))
+            obj = B.build(parent)
+            for m in [None] + sorted(v["uid"] for v in parent["variants"]):
+                B.dumps(obj, main_variant=m)
+            B.apply_obj(obj, case["edits"][-1])
+        else:
+            obj = B.build(spec, _owner=owner)
         text = B.dumps(obj, main_variant=spec["main_variant"])
     except (ValueError, TypeError) as exc:
         return {"status": "refused", "problems": ["%s" % exc_name(exc)]}
@@ -157,8 +166,9 @@ def run_unit(unit, acc):
 
     def visit(spec, trace, parent, last):
         tops = sorted(v["uid"] for v in spec["variants"])
-        for main_choice, moved in [(m, False) for m in [None] + tops] + [(None, True)]:   # main-variant choice crossed with every state
-            case = {"seed": trace[0], "edits": trace[1:], "main": main_choice, "moved": moved}
+        for main_choice, moved, live in [(m, False, False) for m in [None] + tops] + [(None, True, False)] + \
+                ([(None, False, True), (tops[-1], False, True)] if last is not None else []):   # main-variant choice crossed with every state
+            case = {"seed": trace[0], "edits": trace[1:], "main": main_choice, "moved": moved, "live": live}
             o = eval_case(case)
             acc.ev()
             acc.trace()
@@ -171,6 +181,8 @@ def run_unit(unit, acc):
                 acc.outcome("general:bad")
             else:
                 acc.outcome("general:ok")
+                if live:
+                    acc.outcome("edit-after-write:ok")
             if o.get("legacy_checked") and o["status"] == "ok":
                 acc.outcome("legacy-reader:agrees")
             main = main_choice if main_choice is not None else tops[0]
